@@ -71,7 +71,7 @@ func (c c01Case) String() string {
 	return fmt.Sprintf("{%s rev%d b64=%v perMessageDeflate=%d httpCompression=%d accept-encoding=%q steps=%v}", c.Carrier, c.Rev, c.B64, c.PMDeflate, c.HTTPThr, c.AE, c.Steps)
 }
 
-var c01Sizes = []int{0, 1, 2, 10, 100, 125, 126, 127, 1000, 1023, 1024, 4086, 4087, 4095, 4096, 4097, 8192, 8200, 16384, 65535, 65536, 70000}
+var c01Sizes = []int{0, 1, 2, 10, 100, 124, 125, 126, 127, 1000, 1023, 1024, 4086, 4087, 4095, 4096, 4097, 8192, 8200, 16384, 65534, 65535, 65536, 65537, 70000}
 
 func genC01Send(rt *rapid.T, l string, sender int, knownPre bool, col *Collector) c01Send {
 	s := c01Send{Sender: sender}
@@ -153,13 +153,16 @@ func genC01(rt *rapid.T, knownPre, knownRace bool, col *Collector) c01Case {
 // payload carries the sender and its sequence number so that the per-sender
 // prefix relation can be checked.
 func c01Payload(sender, seq, size int, bin bool, asciiOnly bool) Pkt {
+	// size is the total data length (at least the tag that identifies sender and sequence number)
 	if bin {
 		b := make([]byte, 0, size+5)
 		b = append(b, byte(sender))
 		var q [4]byte
 		binary.BigEndian.PutUint32(q[:], uint32(seq))
 		b = append(b, q[:]...)
-		b = append(b, makePayload(size, byte(seq))...)
+		if size > 5 {
+			b = append(b, makePayload(size-5, byte(seq))...)
+		}
 		return msgB(b)
 	}
 	head := fmt.Sprintf("%d:%d:", sender, seq)
@@ -169,13 +172,16 @@ func c01Payload(sender, seq, size int, bin bool, asciiOnly bool) Pkt {
 	}
 	var sb strings.Builder
 	sb.WriteString(head)
-	for sb.Len() < len(head)+size {
-		sb.WriteString(fill[:min(len(fill), len(head)+size-sb.Len())])
+	for sb.Len() < size {
+		sb.WriteString(fill[:min(len(fill), size-sb.Len())])
 	}
-	// cut on a rune boundary
+	// cut on a rune boundary, then pad to the exact length
 	s := sb.String()
 	for len(s) > 0 && !validUTF8Tail(s) {
 		s = s[:len(s)-1]
+	}
+	for len(s) < size {
+		s += "."
 	}
 	return msgT(s)
 }
